@@ -44,7 +44,7 @@ Definition enc_event (e : event) : list Z :=
 Definition enc_precord (r : precord) : list Z :=
   match r with PResult v => 0 :: enc_value v | PError e => [1; err_code e] | PUnmodelled => [2] | PEmptyText => [3] end.
 
-(* [nvars vars.. nfuns funs.. ncells cells.. nrange rangevals.. formula] *)
+(* [nvars vars.. nfuns funs.. ncells cells.. nrange rangevals.. nvarset .. nfunset .. formula] *)
 Definition e_parse (a : list Z) : list Z :=
   match a with
   | nv :: r0 =>
@@ -58,10 +58,21 @@ Definition e_parse (a : list Z) : list Z :=
               match r5 with
               | nr :: r6 =>
                   let '(rng, r7) := dec_vals (Z.to_nat nr) r6 in
-                  let '(formula, _) := dec_text r7 in
-                  let h := {| h_vars := vars; h_funs := funs; h_cells := cells; h_ranges := rng; h_registry := registry_names |} in
-                  let '(rec, tr) := parse_formula h formula in
-                  enc_precord rec ++ Z.of_nat (length tr) :: flat_map enc_event tr
+                  match r7 with
+                  | nvs :: r8 =>
+                      let '(varset, r9) := dec_cells (Z.to_nat nvs) r8 in
+                      match r9 with
+                      | nfs :: r10 =>
+                          let '(funset, r11) := dec_cells (Z.to_nat nfs) r10 in
+                          let '(formula, _) := dec_text r11 in
+                          let h := {| h_vars := vars; h_funs := funs; h_cells := cells; h_ranges := rng; h_registry := registry_names;
+                                      h_varset := varset; h_funset := funset |} in
+                          let '(rec, tr) := parse_formula h formula in
+                          enc_precord rec ++ Z.of_nat (length tr) :: flat_map enc_event tr
+                      | [] => [-1]
+                      end
+                  | [] => [-1]
+                  end
               | [] => [-1]
               end
           | [] => [-1]
